@@ -21,7 +21,7 @@ use crate::dfa::Dfa;
 use crate::expression::Expression;
 use itertools::Itertools;
 use regex::{Regex, RegexBuilder};
-use std::cmp::Ordering;
+use std::cmp::{Ordering, Reverse};
 use std::fmt::{Display, Formatter, Result};
 
 pub struct RegExp<'a> {
@@ -51,7 +51,7 @@ impl<'a> RegExp<'a> {
         #[cfg(grex_verif)]
         crate::verif::record(crate::verif::Event::Expr(ast.to_string()));
 
-        if config.is_start_anchor_disabled && config.is_end_anchor_disabled {
+        if config.is_end_anchor_disabled {
             // An expression which the regex crate cannot compile (surrogate pairs,
             // size limit exceeded) cannot be checked and is kept as it is.
             if let Some(mut regex) = Self::convert_expr_to_regex(&ast, config) {
@@ -78,12 +78,20 @@ impl<'a> RegExp<'a> {
                     if !is_each_test_case_matched {
                         #[cfg(grex_verif)]
                         crate::verif::record(crate::verif::Event::Branch("alternation"));
-                        let mut exprs = vec![];
-                        for cluster in grapheme_clusters {
-                            let literal = Expression::new_literal(cluster, config);
-                            exprs.push(literal);
-                        }
-                        ast = Expression::new_alternation(exprs, config);
+                        // Every alternative matches as many characters as its test case has,
+                        // so test cases with more characters have to be tried first.
+                        let exprs = grapheme_clusters
+                            .into_iter()
+                            .zip(test_cases.iter())
+                            .sorted_by_key(|(_, test_case)| Reverse(test_case.chars().count()))
+                            .map(|(cluster, _)| Expression::new_literal(cluster, config))
+                            .collect_vec();
+                        ast = Expression::Alternation(
+                            exprs,
+                            config.is_capturing_group_enabled,
+                            config.is_output_colorized,
+                            config.is_verbose_mode_enabled,
+                        );
                     }
                 }
             }
@@ -141,9 +149,13 @@ impl<'a> RegExp<'a> {
     }
 
     fn regex_matches_all_test_cases(regex: &Regex, test_cases: &[String]) -> bool {
-        test_cases
-            .iter()
-            .all(|test_case| regex.find_iter(test_case).count() == 1)
+        // Without the end anchor, the leftmost-first match must span the entire test case
+        // and must not stop at a shorter test case which is a prefix of it.
+        test_cases.iter().all(|test_case| {
+            regex
+                .find(test_case)
+                .is_some_and(|m| m.start() == 0 && m.end() == test_case.len())
+        })
     }
 
     fn sort(test_cases: &mut Vec<String>) {
